@@ -223,7 +223,18 @@ const AMP: f64 = 100.0;
 struct Ref {
     value: Vec<f64>,
     sens: Vec<f64>,
+    /// atomic getters (one cache entry each) of models without an iterative association term: the
+    /// contribution-wise absolute sum of that derivative of A (cancellation-safe scale); empty otherwise
+    tight: Vec<f64>,
 }
+
+/// Atomic getters read one cache entry: the value stored by a lower-order evaluation and the real /
+/// lower-order part of a higher-order dual-number evaluation of the same formulas may differ only by the
+/// roundoff of each contribution, i.e. by ~1e-15 of sum_c |d^k A_c|. 1e-11 of that scale (plus 1 % of the
+/// 1e-11-perturbation response) separates this from a by-product whose value depends on the dual-number type
+/// (e.g. an inner iteration that stops earlier for f64) by three orders of magnitude on either side.
+const TOL_ATOMIC: f64 = 1e-11;
+static WORST_ATOMIC: std::sync::Mutex<f64> = std::sync::Mutex::new(0.0);
 
 thread_local! {
     /// the model of the running case has an association contribution (iterative solver possible)
@@ -241,7 +252,18 @@ fn compare(obs: &mut Obs, what: &str, got: &[f64], reference: &Ref) {
         if (u.is_nan() && v.is_nan()) || u == v {
             continue;
         }
-        let tol = RTOL * scale.max(u.abs()) + AMP * reference.sens[k];
+        let mut tol = RTOL * scale.max(u.abs()) + AMP * reference.sens[k];
+        if let Some(sk) = reference.tight.get(k) {
+            if sk.is_finite() && *sk > 0.0 {
+                let t = TOL_ATOMIC * sk + 0.01 * reference.sens[k];
+                let mut w = WORST_ATOMIC.lock().unwrap();
+                let r = (u - v).abs() / t;
+                if r > *w {
+                    *w = r;
+                }
+                tol = tol.min(t);
+            }
+        }
         if u.is_nan() != v.is_nan() && ASSOC_MODEL.with(|c| c.get()) {
             // the iterative cross-association solver returns NaN when it needs more than
             // max_iter steps; the f64 and dual-number routes see partial densities that differ
@@ -318,7 +340,31 @@ pub fn check(case: &Case, obs: &mut Obs) {
             .zip(&vp)
             .map(|(a, b)| RTOL * floor / AMP + if (a - b).is_finite() { (a - b).abs() } else { 0.0 })
             .collect();
-        Some(Ref { value, sens })
+        // cancellation-safe scales of the atomic getters (models without association only: the site
+        // fractions are iterated to tol_cross_assoc from a start value that depends on the history)
+        let tight: Vec<f64> = if g < 12 && !case.spec.has_association() {
+            use crate::scales::{contrib_abs, PD};
+            use feos::core::Derivative::{DN, DT, DV};
+            let n = s.moles.len();
+            match g {
+                0 => vec![contrib_abs(&s, PD::Zeroth)],
+                1 => vec![contrib_abs(&s, PD::First(DV))],
+                2 => vec![contrib_abs(&s, PD::First(DT))],
+                3 => (0..n).map(|i| contrib_abs(&s, PD::First(DN(i)))).collect(),
+                4 => vec![contrib_abs(&s, PD::Second(DV))],
+                5 => vec![contrib_abs(&s, PD::Second(DT))],
+                6 => vec![contrib_abs(&s, PD::Mixed(DV, DT))],
+                7 => (0..n).map(|i| contrib_abs(&s, PD::Mixed(DV, DN(i)))).collect(),
+                8 => (0..n).map(|i| contrib_abs(&s, PD::Mixed(DT, DN(i)))).collect(),
+                9 => (0..n).flat_map(|i| (0..n).map(move |j| (i, j))).map(|(i, j)| contrib_abs(&s, PD::Mixed(DN(i), DN(j)))).collect(),
+                10 => vec![contrib_abs(&s, PD::Third(DV))],
+                _ => vec![contrib_abs(&s, PD::Third(DT))],
+            }
+        } else {
+            vec![]
+        };
+        let tight = if tight.len() == value.len() { tight } else { vec![] };
+        Some(Ref { value, sens, tight })
     };
     let reference = |g: usize, aux: usize| reference_at(g, aux, sys.inputs.0);
 
@@ -865,6 +911,8 @@ pub fn run(ctx: &Ctx) {
     ctx.run_sampled(&HIST, &decode_history, &check);
     ctx.run_sampled(&THREADS, &decode_threads, &check);
     ctx.run_sampled(&PAR, &decode_par, &check_par);
+    ctx.assume("atomic getters (one cache entry each: A_res, p_res, S_res, mu_res, dp/dV, dS/dT, dp/dT, dp/dN, dmu/dT, dmu/dN, d2p/dV2, d2S/dT2) of models without an association term are compared with 1e-11 of the contribution-wise absolute sum of that derivative of A (plus 1 % of the perturbation response): the real part of every dual-number evaluation must be the f64 evaluation up to roundoff");
+    ctx.extra("worst_atomic_deviation_over_tolerance", json!(*WORST_ATOMIC.lock().unwrap()));
 }
 
 pub fn replay(ctx: &Ctx, part: &str, case: &Value) -> bool {
